@@ -277,9 +277,11 @@ class ModeDReader(MeterReaderBase[DataReadout]):
         """
         readouts_received: list[DataReadout] = []
 
-        if len(self._buffer) > 8191:
+        if len(self._buffer) + len(self._raw_data) > 8191:
+            # No line or readout is this long. Discard what is collected and hunt for the next readout.
             self._is_int_hunt_mode = True
-            self._buffer.trim_buffer_to_flag_or_end()
+            self._raw_data.clear()
+            self._buffer.clear()
 
         self._buffer.extend(data_chunk)
 
@@ -335,6 +337,11 @@ class _ReaderBuffer:
     def extend(self, data_chunk: bytes) -> None:
         """Add bytes to buffer."""
         self._buffer.extend(data_chunk)
+
+    def clear(self) -> None:
+        """Remove all bytes from buffer."""
+        self._buffer.clear()
+        self._buffer_pos = 0
 
     def trim_buffer_to_current_position(self) -> None:
         """Trim buffer to current position."""
